@@ -403,19 +403,20 @@ def store_tasks(chk, gen, bad):
     for fam in ("one", "one2", "two"):
         for i, (case, D) in enumerate(gen.get(fam, [])):
             full = bool(i % 2)
-            # every case through the tuple store before rounding (exact); a seeded share of them also
-            # after rounding, through the item store and through instantiateGvarGlyph
-            tasks.append((case, D, "tvs", False, full, 1))
-            if rng.random() < (0.3 if quick else 0.5):
+            # quick: every case through the tuple store before rounding (exact); a seeded share of them
+            # also after rounding, through the item store and through instantiateGvarGlyph
+            if quick or rng.random() < 0.5:      # thorough: half of its 30 times larger case set
+                tasks.append((case, D, "tvs", False, full, 1))
+            if rng.random() < (0.3 if quick else 0.25):
                 tasks.append((case, D, "tvs", True, full, 0))
-            if rng.random() < (0.15 if quick else 0.25):
+            if rng.random() < (0.15 if quick else 0.12):
                 tasks.append((case, D, "ivs", True, full, 0))
-            if rng.random() < (0.15 if quick else 0.25):
+            if rng.random() < (0.15 if quick else 0.12):
                 tasks.append((case, D, "gvar", rng.random() < 0.5, full, 0))
     badkeys = {_case_key(c) for c, _ in bad}
     for case, D in gen.get("fv", []):
         isbad = _case_key(case) in badkeys
-        if not quick or rng.random() < (0.5 if isbad else 0.2):
+        if rng.random() < ((0.5 if isbad else 0.2) if quick else (0.4 if isbad else 0.15)):
             tasks.append((case, D, "fv", False, False, 0))
     return tasks
 
